@@ -45,11 +45,12 @@ Definition all_timekinds :=
   [TDatetime; TDt64 US_s; TDt64 US_ms; TDt64 US_us; TDt64 US_ns; TObjArr;
    TDt64Arr US_s; TDt64Arr US_ms; TDt64Arr US_us; TDt64Arr US_ns].
 
-Inductive res (A : Type) := Ok (a : A) | AttributeError.
+Inductive res (A : Type) := Ok (a : A) | AttributeError | TypeError.
 Arguments Ok {A}.
 Arguments AttributeError {A}.
+Arguments TypeError {A}.
 Definition bind {A B} (r : res A) (f : A -> res B) : res B :=
-  match r with Ok a => f a | AttributeError => AttributeError end.
+  match r with Ok a => f a | AttributeError => AttributeError | TypeError => TypeError end.
 Notation "x <- r ;; k" := (bind r (fun x => k)) (at level 61, r at next level, right associativity).
 
 (* ------------------------------------------------------------------ ORACLE FACTS about numpy 2 / dask *)
@@ -107,7 +108,7 @@ Definition sibling (t : vk) : res vk :=
   if isinstance_float t then Ok t
   else match fst t with
        | CPy => AttributeError                  (* python int: no .data *)
-       | CNp => Ok t                            (* np.float32: rebuilt through template.__class__ *)
+       | CNp => TypeError                       (* np.float32 / np.int64: np.asarray(0.0, like=<memoryview>) *)
        | C0d | CNd => Ok (C0d, F64)             (* np.asarray(0.0, like=ndarray) *)
        | CDask => Ok (CDask, F64)
        end.
@@ -290,6 +291,18 @@ Definition rn (x : Q) : Q :=
 (* int64 -> double: exact below 2^53, rounded above *)
 Definition to_double (t : Z) : Q := if Z.abs t <? 2 ^ 53 then inject_Z t else rn (inject_Z t).
 (* numpy: timedelta64 / timedelta64 = (double)a / (double)b, both converted to the finer unit first *)
+Definition fdiv_ticks (a b : Z) : Q := rn (to_double a / to_double b).
+(* astronomy._days as it is now (astronomy.py:59-68):
+     day = np.timedelta64(1, "D"); whole = dt // day; return whole + (dt - whole * day) / day
+   floor division of tick counts is exact integer arithmetic; int64 + float64 converts the integer *)
 Definition days_float (u : tunit) (ticks : Z) : Q :=
-  rn (to_double (ticks - j2000 u) / to_double (ticks_per_day u)).
+  let d := ticks - j2000 u in
+  let whole := d / ticks_per_day u in
+  let r := d - whole * ticks_per_day u in
+  rn (to_double whole + fdiv_ticks r (ticks_per_day u)).
+(* _Keplerians._get_timedelta_in_minutes (orbital.py): (dt2np(t) - t_0) / np.timedelta64(1, "m") — a plain
+   division of the tick counts in the finer of the argument's unit and the epoch's unit (us) *)
+Definition finer (u : tunit) : tunit := match u with US_ns => US_ns | _ => US_us end.
+Definition minutes_float (u : tunit) (ticks_since_epoch : Z) : Q :=
+  fdiv_ticks ticks_since_epoch (60 * ticks_per_second u).
 Close Scope Z_scope.
